@@ -419,5 +419,25 @@ def run_case(ctx, idx, rng, tier):
                 ctx.violation("weights", f"[{name}] qubit at {[repr(float(x)) for x in pos]} gets weight {v!r}; the trap "
                               f"within 1e-6 of it carries {lo!r}", "weight-of-trap-missing")
                 break
+    # ---- the same map objects asked again about the same names sitting at *other* positions (rotated by one): the
+    #      weight belongs to the position, so every name now gets what its new position got in the first query
+    names = list(qubits)
+    if len(names) >= 2:
+        rot = {names[i]: qubits[names[(i + 1) % len(names)]] for i in range(len(names))}
+        for name, dm in maps.items():
+            try:
+                again = dm.get_qubit_weight_map(rot)
+            except Exception as e:
+                ctx.violation("weights", f"second get_qubit_weight_map raised {type(e).__name__}: {str(e)[:200]}", "weight-map-raised")
+                return
+            ctx.count("weight_maps_queried_again_with_moved_qubits")
+            bad = [(names[i], float(again[names[i]]), float(results[name][names[(i + 1) % len(names)]]))
+                   for i in range(len(names))
+                   if abs(float(again[names[i]]) - float(results[name][names[(i + 1) % len(names)]])) > 1e-12]
+            if bad:
+                ctx.violation("weights", f"[{name}] asked again with the same qubit names at other positions, the map gives "
+                              f"(name, weight, weight of that position in the first query): {bad[:3]}",
+                              "weight-map-depends-on-earlier-query")
+                break
     if near:
         ctx.count("weight_maps_on_near_tie_sets")
